@@ -5,10 +5,14 @@ P=$1; NAME=$2; shift 2; CHECKS=${@:-$P}
 W=${SEED_DIR:-/tmp/seed_$P}
 set -u
 cd $W || exit 2
+REB=:; grep -q '^diff --git a/c/' patch.diff && REB='/venv/bin/python setup.py build_ext --inplace -q'   # C change: rebuild the extensions around each demo run
+$REB >/dev/null 2>&1
 echo "== demo with change"; timeout 300 /venv/bin/python demo_$P.py > /tmp/seed_demo_with.txt 2>&1; echo "exit=$?"; head -3 /tmp/seed_demo_with.txt
 git apply -R patch.diff || { echo 'cannot reverse patch'; exit 2; }
+$REB >/dev/null 2>&1
 echo "== demo without change"; timeout 300 /venv/bin/python demo_$P.py > /tmp/seed_demo_without.txt 2>&1; echo "exit=$?"; head -2 /tmp/seed_demo_without.txt
 git apply patch.diff
+$REB >/dev/null 2>&1
 echo "== suite with change"; /venv/bin/python -m pytest -q -p no:cacheprovider -n 6 tests 2>&1 | grep -v csimulator_api_test | grep "FAILED\|passed" | tail -4
 mkdir -p /verif/seeded/$NAME && cp patch.diff demo_$P.py /verif/seeded/$NAME/
 # Builders read /repo live, so while they run the seeded tree is a scratch copy selected with SKOOLKIT_REPO
